@@ -31,9 +31,9 @@ ASSUMPTIONS = [
     "of a cell after an assembly must work as on a fresh table; cell text, labels and row order are judged directly",
 ]
 
-REF_POSITIONS = ["{R}", "Circle, {R}", "({R}), (Circle, {R})", "{R}, Circle", "(Circle, {R})", "({R}, Circle)", "(({R}), Circle)", "Circle, ({R})",
+REF_POSITIONS = ["{R}", "Circle, {R}", "({R}), (Circle, {R})", "(Circle, {R}), ({R})", "Circle, {R}, {R}", "{R}, Circle", "(Circle, {R})", "({R}, Circle)", "(({R}), Circle)", "Circle, ({R})",
                  "(Circle, ({R}, Triangle))", "Circle, {R}, Triangle", "((({R})))"]
-TWO_REFS = ["{R}, {S}", "({R}, {S})", "({R}), ({S}), Circle", "(Circle, ({R}, ({S})))"]
+TWO_REFS = ["{R}, {S}", "({R}, {S})", "({R}), ({S}), Circle", "(Circle, ({R}, ({S})))", "(({R}, {S}), {S})"]
 
 
 # ---- reference model ------------------------------------------------------------------------------
